@@ -30,6 +30,9 @@ def list_of(v, st):
     return None
 
 
+_PROBE = z3.Int("mask_probe_index")
+
+
 def as_array(v, st):
     """view a value as ArrData (lists become 1-D arrays, scalars 0-D)"""
     a = arr_of(v, st)
@@ -648,7 +651,6 @@ def forall_trig(vs, body, *cands):
     return z3.ForAll(vs, body, patterns=pats)
 
 
-_PROBE = z3.Int("mask_probe_index")
 POS_INF = z3.Real("+inf")     # infinite floats are opaque real constants: stored, copied and compared for identity only; any
 NEG_INF = z3.Real("-inf")     # arithmetic on them is outside the model (documented assumption 'machine floats as reals')
 
@@ -726,6 +728,15 @@ def membership(E, ia, st):
             return r
         cache[key] = (mem, wit)
         return mem, wit
+    try:
+        ident = z3.eq(z3.simplify(to_int(ia.sel(_PROBE))), _PROBE)
+    except Exception:
+        ident = False
+    if ident:
+        # the index array is arange(n): membership and witness in closed form
+        nn = to_int(ia.shape[0])
+        cache[key] = ((lambda j, nn=nn: z3.And(0 <= j, j < nn)), (lambda j: j))
+        return cache[key]
     mem = fresh_fn("mem", I, B)
     wit = fresh_fn("wit", I, I)
     t, j = z3.Ints("t j")
